@@ -2,6 +2,8 @@ mod case;
 mod driver;
 mod e2;
 mod e2drv;
+mod e2torn;
+mod e2power;
 mod gen;
 mod interp;
 mod model;
